@@ -31,6 +31,8 @@ spec fn cmd_respects(a: World, b: World) -> bool {
     &&& forall|p: Seq<char>| #![trigger b.files[p]] #![trigger a.files[p]] under(a.cache_dir, p) ==>
             (a.files.contains_key(p) == b.files.contains_key(p) && (a.files.contains_key(p) ==> a.files[p] == b.files[p]))
     &&& (mt(a) ==> mt(b))
+    // targets are regular files: a command leaves no directory at a declared target path
+    &&& forall|p: Seq<char>| #![trigger b.dirs.contains(p)] a.targets.contains(p) && !a.dirs.contains(p) ==> !b.dirs.contains(p)
 }
 
 trait System : Sized
